@@ -30,6 +30,9 @@ pub struct Engine {
     pub eval_counter: Option<&'static str>,
     /// a scenario is split over this many consecutive runs (enumerated cases are dealt round-robin)
     pub shards: u64,
+    /// the property itself is determinism of the system under test: a violation whose replay does
+    /// not reproduce in a fresh process is then still a violation (exit 1), not a harness error
+    pub nondeterminism_is_violation: bool,
 }
 
 pub fn engines() -> Vec<Engine> {
@@ -60,6 +63,7 @@ pub fn engines() -> Vec<Engine> {
         init: None,
         eval_counter: None,
         shards: 1,
+        nondeterminism_is_violation: false,
     },
     Engine {
         id: "C13",
@@ -67,7 +71,7 @@ pub fn engines() -> Vec<Engine> {
         generate: crate::c13::generate,
         execute: crate::c13::execute,
         shrink: crate::c13::shrink,
-        runs_quick: 128,
+        runs_quick: 112,
         runs_thorough: 4800,
         cap_thorough_secs: 1500,
         rule: "one evaluation = one zerv child process judged by the clean-failure oracle; per scenario (seeded world state x command) the fault-free run is traced and then EVERY git invocation k x EVERY proxy fault kind is executed (enumerated, not sampled), plus whole-run git faults, 2-3 fault sequences, storage corruptions (target x manner), stdin / cwd / non-UTF-8 argv faults, interleaved repository mutations at every invocation index (thorough) and a seeded adversarial argv workload drawn from the flag set the binary itself reports; distinct = distinct (git sub-command, invocation index, fault kind, zerv sub-command, outcome class) tuples whose fault actually fired according to the proxy trace, plus distinct storage / stdin / cwd / whole-run / mutation placements",
@@ -82,6 +86,7 @@ pub fn engines() -> Vec<Engine> {
         init: Some(crate::argvgen::init),
         eval_counter: Some("children"),
         shards: 4,
+        nondeterminism_is_violation: false,
     },
     Engine {
         id: "C14",
@@ -103,6 +108,7 @@ pub fn engines() -> Vec<Engine> {
         init: Some(crate::argvgen::init),
         eval_counter: Some("executions"),
         shards: 1,
+        nondeterminism_is_violation: true,
     },
     Engine {
         id: "C12",
@@ -124,6 +130,7 @@ pub fn engines() -> Vec<Engine> {
         init: Some(crate::argvgen::init),
         eval_counter: None,
         shards: 1,
+        nondeterminism_is_violation: false,
     },
     Engine {
         id: "C03",
@@ -146,6 +153,7 @@ pub fn engines() -> Vec<Engine> {
         init: None,
         eval_counter: None,
         shards: 1,
+        nondeterminism_is_violation: false,
     }]
 }
 
@@ -437,8 +445,12 @@ pub fn run(ctx: &Ctx, id: &str, opts: &Opts) -> i32 {
             short(&mv.detail, 300)
         );
         if !reproduced {
-            println!("HARNESS-ERROR: replay file {path:?} did not reproduce in a fresh process");
-            exit = 2;
+            if eng.nondeterminism_is_violation {
+                println!("NOTE: replay file {path:?} did not reproduce in a fresh process: the system under test behaves differently from process to process, which is what this property forbids");
+            } else {
+                println!("HARNESS-ERROR: replay file {path:?} did not reproduce in a fresh process");
+                exit = 2;
+            }
         }
         println!("VIOLATION property={} replay={}", eng.id, path.display());
         if exit == 0 {
